@@ -1,0 +1,24 @@
+//go:build verif
+
+package avc
+
+// Verification hooks (build tag "verif" only): exported views of unexported helpers.
+
+// VerifStartCode is one entry of getStartCodePositions.
+type VerifStartCode struct {
+	StartCodeLength int
+	StartPos        int
+}
+
+// VerifGetStartCodePositions exposes getStartCodePositions.
+func VerifGetStartCodePositions(stream []byte) ([]VerifStartCode, int) {
+	scs, minLen := getStartCodePositions(stream)
+	out := make([]VerifStartCode, len(scs))
+	for i, s := range scs {
+		out[i] = VerifStartCode{s.startCodeLength, s.startPos}
+	}
+	return out, minLen
+}
+
+// VerifHasZeroByte exposes hasZeroByte.
+func VerifHasZeroByte(x uint) bool { return hasZeroByte(x) }
